@@ -27,15 +27,19 @@ struct TCase {
     tg::Tissue tissue;
     double lmin_f = 0.5, cut_rep_f = 0.3, cut_adh_f = 0.3;
     int normals_state = 1, lone = 0;
+    unsigned keep_mask = 0;  // != 0: after the first run the cells whose bit is clear are removed (the way the solver removes cells)
+                             // and the SAME model instance runs again on the remaining population
     void write(vf::Writer& w) const {
         tissue.write(w);
         w.d(lmin_f), w.d(cut_rep_f), w.d(cut_adh_f), w.i(normals_state), w.i(lone);
+        w.u(keep_mask);
         w.nl();
     }
     static TCase read(vf::Reader& r) {
         TCase c;
         c.tissue = tg::Tissue::read(r);
         c.lmin_f = r.d(), c.cut_rep_f = r.d(), c.cut_adh_f = r.d(), c.normals_state = (int)r.i(), c.lone = (int)r.i();
+        if (r.more()) c.keep_mask = (unsigned)r.u();
         return c;
     }
 };
@@ -49,6 +53,8 @@ static rc::Gen<TCase> genT() {
         c.cut_adh_f = *loguniform(0.05, 1.5);
         c.normals_state = *irange(0, 2) != 0;
         c.lone = *irange(0, 9) == 0;
+        // half of the cases continue with a second run of the same model on a shrunk population (1 cell left, or a random subset)
+        if (*irange(0, 1)) c.keep_mask = *irange(0, 2) == 0 ? (1u << *irange(0, 4)) : (unsigned)*irange(1, 127);
         return c;
     });
 }
@@ -76,93 +82,106 @@ static std::string runT(const TCase& k, vf::Ctx& ctx) {
 #endif
         for (auto& n : cell_tester::nodes(*c)) cell_tester::force(n).reset();
     }
-    std::vector<TriMesh> before;
-    for (auto& c : b.cells) before.push_back(ct::snapshot(*c));
     model_t model(sp);
-    model.run(b.cells);
-    std::ostringstream os;
-    os << std::setprecision(12);
-    // (a) no net force on the tissue
-    V3 sum;
-    ld sabs = 0;
     long n_forced = 0, n_coupled = 0;
-    for (auto& c : b.cells)
-        for (auto& n : cell_tester::nodes(*c)) {
-            if (!n.is_used()) continue;
-            V3 f = ct::to_v3(n.force());
-            if (!std::isfinite((double)f.n2())) return "non-finite contact force";
-            sum = sum + f;
-            sabs += f.norm();
-            if (f.n2() > 0) n_forced++;
-#if CONTACT_MODEL_INDEX != 0
-            if (n.is_coupled()) n_coupled++;
-#endif
+    ld sabs = 0;
+    // one run of the model on `cells` followed by the whole-tissue clauses; phase is only used in messages
+    auto run_and_judge = [&](std::vector<cell_ptr>& cells, const char* phase) -> std::string {
+        struct B {
+            std::vector<cell_ptr>& cells;
+        } b{cells};
+        std::vector<TriMesh> before;
+        for (auto& c : b.cells) before.push_back(ct::snapshot(*c));
+        model.run(b.cells);
+        n_forced = 0, n_coupled = 0, sabs = 0;
+        std::ostringstream os;
+        os << std::setprecision(12) << phase;
+        // (a) no net force on the tissue
+        V3 sum;
+        for (auto& c : b.cells)
+            for (auto& n : cell_tester::nodes(*c)) {
+                if (!n.is_used()) continue;
+                V3 f = ct::to_v3(n.force());
+                if (!std::isfinite((double)f.n2())) return "non-finite contact force";
+                sum = sum + f;
+                sabs += f.norm();
+                if (f.n2() > 0) n_forced++;
+    #if CONTACT_MODEL_INDEX != 0
+                if (n.is_coupled()) n_coupled++;
+    #endif
+            }
+        if (sum.norm() > 1e-10 * sabs + 1e-300) {
+            os << "contact adds a net force to the tissue: |sum F| = " << (double)sum.norm() << ", sum |F_i| = " << (double)sabs;
+            return os.str();
         }
-    if (sum.norm() > 1e-10 * sabs + 1e-300) {
-        os << "contact adds a net force to the tissue: |sum F| = " << (double)sum.norm() << ", sum |F_i| = " << (double)sabs;
-        return os.str();
-    }
-    if (b.cells.size() == 1 && (n_forced || n_coupled)) return "a cell alone received contact forces or couplings";
-    // (b) range: a node with a contact force must be within the cut-off of another cell's surface (as node) or belong to a
-    // face that has a foreign node within the cut-off (as face)
-    for (size_t ci = 0; ci < b.cells.size(); ci++) {
-        auto& nl = cell_tester::nodes(*b.cells[ci]);
-        for (size_t ni = 0; ni < nl.size(); ni++) {
-            if (!nl[ni].is_used()) continue;
-            bool forced = nl[ni].force().squared_norm() > 0;
-            bool coupled = false;
-#if CONTACT_MODEL_INDEX == 1
-            coupled = nl[ni].is_coupled();
-            if (coupled) {
-                auto [cj, nj] = nl[ni].get_coupled_node();
-                if (cj == ci || cj >= b.cells.size()) {
-                    os << "node " << ni << " of cell " << ci << " is coupled to cell " << cj << " (same cell or not existing)";
-                    return os.str();
+        if (b.cells.size() == 1 && (n_forced || n_coupled)) return os.str() + "a cell alone received contact forces or couplings";
+        // (b) range: a node with a contact force must be within the cut-off of another cell's surface (as node) or belong to a
+        // face that has a foreign node within the cut-off (as face)
+        for (size_t ci = 0; ci < b.cells.size(); ci++) {
+            auto& nl = cell_tester::nodes(*b.cells[ci]);
+            for (size_t ni = 0; ni < nl.size(); ni++) {
+                if (!nl[ni].is_used()) continue;
+                bool forced = nl[ni].force().squared_norm() > 0;
+                bool coupled = false;
+    #if CONTACT_MODEL_INDEX == 1
+                coupled = nl[ni].is_coupled();
+                if (coupled) {
+                    auto [cj, nj] = nl[ni].get_coupled_node();
+                    if (cj == ci || cj >= b.cells.size()) {
+                        os << "node " << ni << " of cell " << ci << " is coupled to cell " << cj << " (same cell or not existing)";
+                        return os.str();
+                    }
+                    ld d = (before[ci].p(ni) - before[cj].p(nj)).norm();
+                    if (!(d < sp.contact_cutoff_adhesion_ * (1 + 1e-9))) {
+                        os << "node " << ni << " of cell " << ci << " coupled to node " << nj << " of cell " << cj << " at distance " << (double)d
+                           << " >= adhesion cut-off " << sp.contact_cutoff_adhesion_;
+                        return os.str();
+                    }
+                    if (b.cells[ci]->get_cell_type_id() != 0 || b.cells[cj]->get_cell_type_id() != 0) return "coupling involving a cell that is not epithelial";
                 }
-                ld d = (before[ci].p(ni) - before[cj].p(nj)).norm();
-                if (!(d < sp.contact_cutoff_adhesion_ * (1 + 1e-9))) {
-                    os << "node " << ni << " of cell " << ci << " coupled to node " << nj << " of cell " << cj << " at distance " << (double)d
-                       << " >= adhesion cut-off " << sp.contact_cutoff_adhesion_;
-                    return os.str();
+    #elif CONTACT_MODEL_INDEX == 2
+                for (auto& kv : cell_tester::coupled_map(nl[ni])) {
+                    coupled = true;
+                    if (kv.first == ci || kv.first >= b.cells.size()) return "node coupled to its own cell or to a cell that does not exist";
+                    ld d = (before[ci].p(ni) - before[kv.first].p(kv.second.first)).norm();
+                    if (!(d < sp.contact_cutoff_adhesion_ * (1 + 1e-9))) {
+                        os << "node " << ni << " of cell " << ci << " coupled at distance " << (double)d << " >= adhesion cut-off " << sp.contact_cutoff_adhesion_;
+                        return os.str();
+                    }
                 }
-                if (b.cells[ci]->get_cell_type_id() != 0 || b.cells[cj]->get_cell_type_id() != 0) return "coupling involving a cell that is not epithelial";
-            }
-#elif CONTACT_MODEL_INDEX == 2
-            for (auto& kv : cell_tester::coupled_map(nl[ni])) {
-                coupled = true;
-                if (kv.first == ci || kv.first >= b.cells.size()) return "node coupled to its own cell or to a cell that does not exist";
-                ld d = (before[ci].p(ni) - before[kv.first].p(kv.second.first)).norm();
-                if (!(d < sp.contact_cutoff_adhesion_ * (1 + 1e-9))) {
-                    os << "node " << ni << " of cell " << ci << " coupled at distance " << (double)d << " >= adhesion cut-off " << sp.contact_cutoff_adhesion_;
-                    return os.str();
-                }
-            }
-#endif
-            if (!forced) continue;
-            bool explained = false;
-            for (size_t cj = 0; cj < b.cells.size() && !explained; cj++) {
-                if (cj == ci) continue;
-                if (vg::dist_to_surface(before[cj], before[ci].p(ni)) < cutoff * (1 + 1e-9)) explained = true;
-                // as member of a face: some foreign node close to one of the faces incident to this node
-                for (size_t t = 0; t < before[ci].nt() && !explained; t++) {
-                    unsigned a = before[ci].tri[3 * t], bb = before[ci].tri[3 * t + 1], cc = before[ci].tri[3 * t + 2];
-                    if (a != ni && bb != ni && cc != ni) continue;
-                    for (size_t nj = 0; nj < before[cj].nn(); nj++) {
-                        if (!cell_tester::node_used(cell_tester::nodes(*b.cells[cj])[nj])) continue;
-                        auto cl = vg::closest_on_triangle(before[cj].p(nj), before[ci].p(a), before[ci].p(bb), before[ci].p(cc));
-                        if (sqrtl(cl.d2) < cutoff * (1 + 1e-9)) {
-                            explained = true;
-                            break;
+    #endif
+                if (!forced) continue;
+                bool explained = false;
+                for (size_t cj = 0; cj < b.cells.size() && !explained; cj++) {
+                    if (cj == ci) continue;
+                    if (vg::dist_to_surface(before[cj], before[ci].p(ni)) < cutoff * (1 + 1e-9)) explained = true;
+                    // as member of a face: some foreign node close to one of the faces incident to this node
+                    for (size_t t = 0; t < before[ci].nt() && !explained; t++) {
+                        unsigned a = before[ci].tri[3 * t], bb = before[ci].tri[3 * t + 1], cc = before[ci].tri[3 * t + 2];
+                        if (a != ni && bb != ni && cc != ni) continue;
+                        for (size_t nj = 0; nj < before[cj].nn(); nj++) {
+                            if (!cell_tester::node_used(cell_tester::nodes(*b.cells[cj])[nj])) continue;
+                            auto cl = vg::closest_on_triangle(before[cj].p(nj), before[ci].p(a), before[ci].p(bb), before[ci].p(cc));
+                            if (sqrtl(cl.d2) < cutoff * (1 + 1e-9)) {
+                                explained = true;
+                                break;
+                            }
                         }
                     }
                 }
+                if (!explained) {
+                    os << "node " << ni << " of cell " << ci << " received a contact force although no element of another cell is within the cut-off " << (double)cutoff;
+                    return os.str();
+                }
+                (void)coupled;
             }
-            if (!explained) {
-                os << "node " << ni << " of cell " << ci << " received a contact force although no element of another cell is within the cut-off " << (double)cutoff;
-                return os.str();
-            }
-            (void)coupled;
         }
+
+        return "";
+    };
+    {
+        std::string m = run_and_judge(b.cells, "");
+        if (!m.empty()) return m;
     }
     ctx.count(n_forced ? "tissue_with_forces" : "tissue_without_forces");
     if (n_coupled) ctx.count("tissue_with_couplings");
@@ -172,6 +191,30 @@ static std::string runT(const TCase& k, vf::Ctx& ctx) {
         std::ostringstream s2;
         s2 << tis.note << " cells=" << b.cells.size() << " forced_nodes=" << n_forced << " coupled_nodes=" << n_coupled << " sum|F|=" << (double)sabs;
         ctx.sample(s2.str());
+    }
+    if (k.keep_mask && b.cells.size() >= 2) {
+        // the population shrinks the way solver::run_iteration shrinks it (erase + renumbering of the local ids), forces are reset as
+        // the time integration does, and the same model instance runs on what is left
+        const long coupled_before = n_coupled;
+        std::vector<cell_ptr> rest;
+        for (size_t i = 0; i < b.cells.size(); i++)
+            if (k.keep_mask >> i & 1u) rest.push_back(b.cells[i]);
+        if (rest.empty()) rest.push_back(b.cells[k.keep_mask % b.cells.size()]);
+        if (rest.size() < b.cells.size()) {
+            for (size_t i = 0; i < rest.size(); i++) rest[i]->set_local_id((unsigned)i);
+            for (auto& c : rest) {
+                c->update_all_face_normals_and_areas();
+#if CONTACT_MODEL_INDEX != 0
+                if (k.normals_state) c->compute_node_curvature_and_normals();
+#endif
+                for (auto& n : cell_tester::nodes(*c)) cell_tester::force(n).reset();
+            }
+            std::string m = run_and_judge(rest, "second run of the same model after the population shrank: ");
+            if (!m.empty()) return m;
+            ctx.count("second_run_on_shrunk_population");
+            if (rest.size() == 1) ctx.count("second_run_on_single_survivor");
+            if (coupled_before) ctx.count("second_run_after_couplings_existed");
+        }
     }
     return "";
 }
